@@ -92,7 +92,9 @@ fn rop_strategy() -> BoxedStrategy<ROp> {
 
 fn ioop_strategy() -> BoxedStrategy<IoOp> {
     let slot = 0u8..2;
-    let d = (proptest::sample::select(vec![1u32, 100, 600, 1024, 1500, 3000, 5000]), any::<u8>()).prop_map(|(len, seed)| DataSpec { len, seed });
+    // mostly small writes; some far larger than 64 KiB, so that one write-back (default buffer) moves a
+    // lot of data and any splitting of it over several lock acquisitions shows as an intermediate length
+    let d = (proptest::sample::select(vec![1u32, 100, 600, 1024, 1500, 3000, 5000, 1, 100, 600, 1024, 1500, 3000, 5000, 70_000, 150_000, 300_000]), any::<u8>()).prop_map(|(len, seed)| DataSpec { len, seed });
     prop_oneof![
         3 => (slot.clone(), any::<u8>()).prop_map(|(s, p)| IoOp::Open(s, p)),
         4 => (slot.clone(), proptest::sample::select(vec![1u16, 100, 1024, 2000, 5000])).prop_map(|(s, n)| IoOp::Read(s, n)),
@@ -389,7 +391,7 @@ fn report(c: &C14Case) -> CaseReport {
         });
         let (deadlock, reentrant, points, wr_while_reader, log) = sched::snapshot_result();
         sched::deactivate();
-        cfb::verif_hooks::set_observer(None);
+        crate::lockwatch::install();
         // handles dropped here (scheduler inactive)
         let _ = guard("drop_handles", move || drop(pre));
         rep.trace = log;
